@@ -219,6 +219,57 @@ export function genSplitProject(rng, p) {
   return { proj, files: fileTexts, expect: A(expect), breakKind };
 }
 
+// ---------- barrels: `export *` graphs with shared nodes (diamonds), several stars per file, optional back edges ----------
+export function genStarDag(rng, p) {
+  const decls = p[1], exps0 = p[2];
+  const nleaf = 2 + rng.below(2);
+  const leaves = Array.from({ length: nleaf }, (_, i) => ["leaf" + i + ".ts", "shared/l" + i + ".ts"][rng.below(2)].replace(/\d/, String(i)));
+  const place = new Map(decls.map((d) => [d[1], rng.pick(leaves)]));
+  const nbar = 2 + rng.below(3);
+  const barrels = Array.from({ length: nbar }, (_, i) => "bar" + i + ".ts");
+  const stars = new Map();   // file -> ordered targets
+  for (const l of leaves) stars.set(l, []);
+  barrels.forEach((b, i) => {
+    const cands = [...leaves, ...barrels.slice(0, i)];
+    const k = 1 + rng.below(3), ts = [];
+    for (let j = 0; j < k; j++) ts.push(rng.pick(cands));          // duplicates allowed: `export *` twice from one file
+    if (i + 1 < nbar && rng.chance(1, 6)) ts.splice(rng.below(ts.length + 1), 0, barrels[i + 1]);   // a back edge (cycle)
+    stars.set(b, ts);
+  });
+  // a leaf may itself forward another leaf
+  if (rng.chance(1, 3)) { const a = rng.pick(leaves), b = rng.pick(leaves); if (a !== b && !stars.get(b).includes(a)) stars.get(a).push(b); }
+  const own = (f) => decls.filter((d) => place.get(d[1]) === f).map((d) => d[1]);
+  const reach = (f, seen = new Set()) => { if (seen.has(f)) return new Set(); seen.add(f); const out = new Set(own(f)); for (const t of stars.get(f) || []) for (const n of reach(t, seen)) out.add(n); return out; };
+  const sources = (name) => [...leaves, ...barrels].filter((f) => reach(f).has(name));
+  const refs = (t, acc) => { if (Array.isArray(t)) { if (head(t) === "ref" && typeof t[1] === "string") acc.add(t[1]); t.forEach((x) => refs(x, acc)); } return acc; };
+  const declNames = new Set(decls.map((d) => d[1]));
+  const importsFor = (file, used, paramNames = new Set()) => {
+    const out = [];
+    for (const n of used) { if (!declNames.has(n) || paramNames.has(n) || place.get(n) === file) continue; out.push([A("import-named"), n, n, rng.pick(sources(n).filter((f) => f !== file))]); }
+    return out;
+  };
+  const fileTerms = [];
+  for (const l of leaves) {
+    const ds = decls.filter((d) => place.get(d[1]) === l);
+    const used = new Set(); ds.forEach((d) => refs(d.slice(3), used));
+    const stmts = [...importsFor(l, used), ...ds.map((d) => [A("decl"), A("true"), d]), ...stars.get(l).map((t) => [A("export-all"), t])];
+    fileTerms.push([A("file"), l, ...stmts]);
+  }
+  for (const b of barrels) fileTerms.push([A("file"), b, ...stars.get(b).map((t) => [A("export-all"), t])]);
+  let exps = exps0, expect = "ok";
+  const usedE = new Set(); exps0.forEach((e) => refs(e[1], usedE));
+  let entryImports = importsFor("entry.ts", usedE);
+  if (rng.chance(1, 6)) { // a name imported from a barrel that does not reach it
+    const wanted = [...usedE].filter((n) => declNames.has(n));
+    const bad = wanted.length ? rng.pick(wanted) : null;
+    const holes = bad ? [...barrels, ...leaves].filter((f) => !reach(f).has(bad)) : [];
+    if (bad && holes.length) { entryImports = entryImports.map((s) => (s[1] === bad ? [s[0], s[1], s[2], rng.pick(holes)] : s)); expect = "diags"; }
+  }
+  fileTerms.unshift([A("file"), "entry.ts", ...entryImports]);
+  const files = fileTerms.map((ft) => [ft[1], renderFileTerm(ft[1], ft.slice(2), ft[1] === "entry.ts" ? exps : null, rng)]);
+  return { proj: [A("proj"), [A("exports"), ...exps], ...fileTerms], files, expect: A(expect), breakKind: A(expect === "ok" ? "stars" : "stars-hole") };
+}
+
 // ---------- C14: file variants for edit histories ----------
 function fixImports(text, from, rng) { return text.replace(/import\(([^")]*)\)/g, (m, f) => `import("${specOf(from, f === "?" ? null : f, rng)}")`); }
 export function renderFileTerm(name, terms, exps, rng) { // TypeScript text of (file name stmt…) [+ the buildParsers call]
